@@ -27,3 +27,18 @@ Theorem C06_concatenations : forall t c f, apply_comp t c = OK f ->
     (forall n v, In (n, v) vals -> In (c_prefix c +++ n, v) (fi_seqs f)).
 Proof. exact apply_comp_concatenations. Qed.
 Print Assumptions C06_concatenations.
+
+(* a sufficient condition for finishing to succeed: consistent records for every non-empty base sequence and the
+   joined strand strings for every structure *)
+Theorem C06_finish_succeeds_on_consistent_records : forall t c,
+  (forall n b, In (n, b) (c_bases c) -> b_len b <> 0 -> exists v w, t (c_prefix c +++ n) = Some v /\ List.length v = b_len b /\
+       wc_codes v = Some w /\ t ((c_prefix c +++ n) +++ "*") = Some w) ->
+  (forall vals, base_values t (c_prefix c) (c_bases c) = OK vals ->
+     forall n u, In (n, u) (c_structs c) ->
+       t (c_prefix c +++ n) = Some (join_plus_chars (map (fun sn =>
+           match afind (map (fun x => (fst (fst x), snd x))
+                            (map (fun '(n0, st) => (n0, t_dummy st, brefs_value vals (s_base (t_sup st)))) (c_strands c))) sn with
+           | Some x => x | None => [] end) (u_strands u)))) ->
+  exists f, apply_comp t c = OK f.
+Proof. exact apply_comp_complete. Qed.
+Print Assumptions C06_finish_succeeds_on_consistent_records.
